@@ -9,7 +9,7 @@ test compares exactly the leading n bits, the prefix lengths and network bits of
 forms, agreement with inet_pton."""
 from ..facts import AnalysisBroken
 from ..model import sx, walk, is_var, const_of, on_path
-from .. import numeric, cursor
+from .. import numeric, cursor, rules
 from ..rules import event_exprs as _event_exprs
 
 EXPLANATION = (
@@ -188,6 +188,82 @@ def fold_const(e, env):
             return None
         return {'&': a & b, '|': a | b, '^': a ^ b, '+': a + b, '-': a - b, '<<': a << b, '>>': a >> b}[e['op']]
     return None
+
+
+def prefix_honoured(P, R, rule='C13.TAB.8'):
+    """"x:y::/n yields the documented prefix length": wherever the IPv6 branch of the parser decides that the text is a
+    plain address (it reports the full length, 128) and goes on to succeed, it knows that no prefix length follows at
+    the place it stopped - the character there is not '/', or what follows the '/' is not a digit.  A way out of the
+    group loop that reports 128 without having looked (all eight groups ended by ':', the last one by the second ':' of
+    a trailing "::") drops the "/n" of "1:2:3:4:5:6:7::/112" - or refuses the text."""
+    f = P.need_fn('irc_pton')
+    outb = [p_['name'] for p_ in f.param_info if p_.get('t', '').replace(' ', '') in ('unsignedint*',)]
+    if not outb:
+        raise AnalysisBroken('irc_pton no longer reports the prefix length through a parameter')
+    bp = outb[0]
+    textp = [p_['name'] for p_ in f.param_info if p_.get('t', '').replace(' ', '') == 'constchar*']
+    posv = set()
+    for t in f.sites():
+        for ex in rules.event_exprs(t.ev):
+            for x in walk(ex):
+                if x.get('k') == 'idx' and is_var(x.get('base')) and x['base']['name'] in textp:
+                    posv |= {v for v in (y.get('name') for y in walk(x.get('index')) if y.get('k') == 'var') if v}
+    for b_ in f.blocks:
+        for x in walk(f.term_cond(b_) or {}):
+            if x.get('k') == 'idx' and is_var(x.get('base')) and x['base']['name'] in textp:
+                posv |= {v for v in (y.get('name') for y in walk(x.get('index')) if y.get('k') == 'var') if v}
+
+    def at_pos(e):
+        """e is input[pos] for one of the cursor variables"""
+        return isinstance(e, dict) and e.get('k') == 'idx' and is_var(e.get('index')) and e['index']['name'] in posv
+
+    def on_event(st, t):
+        last, free, nul = st
+        ev = t.ev
+        if ev['k'] == 'store' and is_var(ev.get('lhs')) and ev['lhs']['name'] in posv:
+            return (last, False, nul)
+        lhs = ev.get('lhs') or {}
+        if ev['k'] == 'store' and lhs.get('k') == 'un' and lhs.get('op') == '*' and is_var(lhs.get('e'), bp):
+            if ev.get('op') == '=' and const_of(ev.get('rhs')) == 128:
+                return ('full', free, nul)
+            return ('other', free, nul)
+        return st
+
+    def on_edge(st, e):
+        last, free, nul = st
+        r0 = rules.edge_rel(e)
+        if r0 and is_var(r0[0], bp) and const_of(r0[2]) == 0 and r0[1] in ('==', '!='):
+            isnull = r0[1] == '=='
+            if nul is not None and nul != isnull:
+                return None        # the same pointer cannot be NULL at one test and non-NULL at the next
+            return (last, free, isnull)
+        if e.label == 'default' and at_pos(e.cond) and ord('/') in (e.notin or ()):
+            return (last, True, nul)
+        if e.label == 'case' and at_pos(e.cond) and ord('/') not in (e.vs or ()):
+            return (last, True, nul)
+        r = rules.edge_rel(e)
+        if r:
+            if at_pos(r[0]) and isinstance(const_of(r[2]), int):
+                c = const_of(r[2])
+                if (r[1] == '!=' and c == ord('/')) or (r[1] == '==' and c != ord('/')):
+                    return (last, True, nul)
+            # isdigit(input[pos + 1]) == 0: what follows is not a prefix length
+            l = r[0]
+            if isinstance(l, dict) and l.get('k') in ('callref',) and l.get('callee') in ('isdigit', 'ct_isdigit') and const_of(r[2]) == 0 and r[1] == '==':
+                return (last, True, nul)
+            if isinstance(l, dict) and l.get('k') == 'bin' and l.get('op') == '&' and any(x.get('k') == 'callref' and x.get('callee') == '__ctype_b_loc' for x in walk(l)) and const_of(r[2]) == 0 and r[1] == '==':
+                return (last, True, nul)
+        return st
+    before, _, _, _ = f.forward((None, False, None), on_event, on_edge)
+    n = 0
+    for t in f.sites():
+        if t.ev['k'] != 'ret' or const_of(t.ev.get('val')) == 0:
+            continue
+        sts = before.get(t.key, set())
+        bad = [st for st in sts if st[0] == 'full' and not st[1]]
+        n += 1
+        R.ob(rule, not bad, t, 'where irc_pton succeeds after reporting the full length 128, it has seen that no "/n" follows the place it stopped (%d path state(s), %d without that knowledge)' % (len(sts), len(bad)), key='prefix-honoured')
+    R.floor(rule, 1, 'successful returns of irc_pton')
 
 
 def hex_table(P, R, rule='C13.TAB.3'):
@@ -797,4 +873,5 @@ def run(P, R, tier):
     # a rule without an address item has prefix length 0 ("everybody"): the table its entry lives in starts out zeroed
     from . import c11 as _c11
     _c11.zeroed_entries(P, R, P.need_fn('iauth_class_conf_changed'), 'C13.INIT.3')
+    prefix_honoured(P, R)
     return EXPLANATION, ASSUMPTIONS, {'functions_analysed': [f.name for f in fns], 'subscripts': n_idx, 'block_copies': n_cp, 'shifts': n_sh, 'cursors': n}
